@@ -3,6 +3,7 @@ import IstioModel.C12.Spec
 import IstioModel.C12.VHosts
 import IstioModel.C12.MeshSpec
 import IstioModel.C12.MeshModel
+import IstioModel.C12.MeshFull
 import IstioModel.C12.Gateway
 
 /-! Line-protocol driver for C12 (streams `routes`, `requests`, `vhosts`). See harness/c12. -/
@@ -132,8 +133,11 @@ structure DState where
   vs : VirtualService := {}
   vh : VHDriver := {}
   mesh : Mesh := {}
+  policy : OutboundPolicy := .allowAny
+  aliasHosts : List String := []
   gws : List Gateway := []      -- creation order; servers are added to the last one
   gvss : List GwVS := []
+  gsvcNs : List (String × Service) := []     -- gateway stream: registry services with their namespace
   gwRoute : String := ""
   gwBuilt : Bool := false
 
@@ -166,6 +170,14 @@ def decReq (f : List String) : Option (Request × Regex) :=
           tableRe [])
   | _ => none
 
+/-- The gateway-bound VirtualServices, each with its own view of the registry: services of the VirtualService's
+    namespace come first (so a hostname registered in two namespaces resolves to the VirtualService's own). -/
+def gwViews (d : DState) : List GwVS :=
+  if d.gsvcNs.isEmpty then d.gvss else
+  d.gvss.map fun v =>
+    { v with services := some (((d.gsvcNs.filter (fun e => e.1 == v.vs.ns)).map (·.2))
+                                ++ ((d.gsvcNs.filter (fun e => e.1 != v.vs.ns)).map (·.2))) }
+
 def stepD (d : DState) (toks : List String) : DState × String :=
   match toks with
   | "case" :: _ => ({ stream := d.stream }, "ok")
@@ -183,7 +195,8 @@ def stepD (d : DState) (toks : List String) : DState × String :=
     let rd : Redirect := { uri := if dec pr != "" then "" else dec uri, authority := dec auth, prefixRewrite := dec pr,
                            scheme := dec scheme, port := decRedirectPort port, code := code.toNat! }
     ({ d with vs := { d.vs with http := d.vs.http ++ [{ name := dec name, redirect := some rd }] } }, "ok")
-  | ["rule", name, "direct", status, body] =>
+  | "rule" :: name :: "direct" :: status :: body :: _ =>
+    -- an optional further token `bytes` says the body is written as HTTPBody.bytes: the same response body
     let dr : DirectResponse := { status := status.toNat!, body := if body == "-" then none else some (dec body) }
     ({ d with vs := { d.vs with http := d.vs.http ++ [{ name := dec name, direct := some dr }] } }, "ok")
   | ["match", name, uri, scheme, method, auth, hs, ws, qs, icase, port, sl, sns, gws] =>
@@ -239,8 +252,9 @@ def stepD (d : DState) (toks : List String) : DState × String :=
     let named := (List.range l.length).zip l |>.map (fun p => ("vs" ++ toString p.1, decList p.2))
     (d, encList (selectVS (decList svcs) named))
   | ["tls", b] => ({ d with ctx := { d.ctx with isTLS := tokBool b } }, "ok")
-  | ["gsvc", h, _ns, ports] =>
-    ({ d with ctx := { d.ctx with services := d.ctx.services ++ [{ host := dec h, ports := (decList ports).map String.toNat! }] },
+  | ["gsvc", h, ns, ports] =>
+    let sv : Service := { host := dec h, ports := (decList ports).map String.toNat! }
+    ({ d with ctx := { d.ctx with services := d.ctx.services ++ [sv] }, gsvcNs := d.gsvcNs ++ [(dec ns, sv)],
               gwBuilt := false }, "ok")
   | ["gateway", name, ns, _sel] =>
     ({ d with gws := d.gws ++ [{ name := dec name, ns := dec ns, servers := [] }], gwBuilt := false }, "ok")
@@ -256,57 +270,86 @@ def stepD (d : DState) (toks : List String) : DState × String :=
     else ({ d with gvss := d.gvss ++ [{ vs := d.vs, gateways := decList gws }], gwBuilt := false }, "ok")
   | ["grds", ns, labels, rn] =>
     let c2 : Ctx := { d.ctx with proxyNamespace := dec ns, proxyLabels := decPairs labels }
-    ({ d with ctx := c2, gwRoute := dec rn, gwBuilt := true }, showVHostTable true (gwVHosts c2 d.gws d.gvss (dec rn)))
+    ({ d with ctx := c2, gwRoute := dec rn, gwBuilt := true }, showVHostTable true (gwVHosts c2 d.gws (gwViews d) (dec rn)))
   | "greq" :: f =>
     match decReq f with
     | none => (d, "bad-op")
     | some (req, re) =>
       if !d.gwBuilt then (d, "no-grds") else
       -- the model of buildGatewayHTTPRouteConfig under the Lean Envoy semantics, checked against the SPEC
-      let m := evalRouteConfig re true (gwVHosts d.ctx d.gws d.gvss d.gwRoute) req
-      let sp := gwSpec re d.ctx d.gws d.gvss d.gwRoute req
+      let m := evalRouteConfig re true (gwVHosts d.ctx d.gws (gwViews d) d.gwRoute) req
+      let sp := gwSpec re d.ctx d.gws (gwViews d) d.gwRoute req
       (d, showDecision m ++ (if sp == m then "" else " !spec:" ++ showDecision sp))
   | "msvc" :: h :: ns :: ports :: addr :: rest =>
     let ps := (decList ports).map String.toNat!
-    let ext := match rest with | [e] => dec e | _ => ""
-    ({ d with mesh := { d.mesh with svcs := d.mesh.svcs ++ [{ host := dec h, ns := dec ns, ports := ps, addr := dec addr }], built := false },
+    let ext := match rest with | e :: _ => dec e | _ => ""
+    let als := match rest with | [_, a] => decList a | _ => []
+    ({ d with mesh := { d.mesh with svcs := d.mesh.svcs ++ [{ host := dec h, ns := dec ns, ports := ps, addr := dec addr, aliases := als }],
+                                    built := false },
+              aliasHosts := if ext == "" then d.aliasHosts else d.aliasHosts ++ [lower (dec h)],
               -- the spec resolves destinations against the FULL registry
               ctx := { d.ctx with services := d.ctx.services ++ [{ host := dec h, ports := ps, externalName := ext }] } }, "ok")
-  | ["sidecar", ns, hosts] =>
-    let es : List EgressHost := (decList hosts).map fun h =>
+  | "sidecar" :: ns :: hosts :: rest =>
+    -- sidecar <ns> <catch-all egress hosts> [<policy> [<port> <hosts of the port-specific listener>]]
+    let decE (t : String) : List EgressHost := (decList t).map fun h =>
       match cutSlash h with
-      | some p => { ns := p.1, host := p.2 }
+      | some p =>
+        if p.1.startsWith "~" then { ns := (if p.1 == "~" then "*" else (p.1.drop 1).toString), host := p.2, excl := true }
+        else { ns := p.1, host := p.2 }
       | none => { ns := "*", host := h }
-    ({ d with mesh := { d.mesh with sidecarNs := dec ns, egress := es, built := false } }, "ok")
+    let pol : OutboundPolicy := match rest with
+      | p :: _ => if p == "registry" then .registryOnly else if p.startsWith "egress=" then
+          (match splitChar '|' (dec (p.drop 7).toString).toList with
+           | [h, pt] => .egressProxy (subsetKey "" (String.ofList h) (String.ofList pt).toNat!)
+           | _ => .allowAny)
+        else .allowAny
+      | [] => .allowAny
+    let pp : Nat × List EgressHost := match rest with
+      | [_, port, hs] => (port.toNat!, decE hs)
+      | _ => (0, [])
+    ({ d with mesh := { d.mesh with sidecarNs := dec ns, egress := decE hosts, egressPort := pp.1, egressPortHosts := pp.2, built := false },
+              policy := pol }, "ok")
   | ["mvs"] =>
     if d.vs.http.isEmpty || d.mesh.vss.any (fun v => v.name == d.vs.name) then (d, "ok")
-    else ({ d with mesh := { d.mesh with vss := d.mesh.vss ++ [d.vs], built := false } }, "ok")
+    else ({ d with mesh := { d.mesh with vss := d.mesh.vss ++ [resolveVS "cluster.local" d.vs], built := false } }, "ok")
   | ["rds", ns, labels, port] =>
     let c2 : Ctx := { d.ctx with proxyNamespace := dec ns, proxyLabels := decPairs labels, gatewayNames := ["mesh"],
                                  listenPort := port.toNat! }
     let m2 : Mesh := { d.mesh with proxyDomain := dec ns ++ ".svc.cluster.local", built := true }
-    let sm := scopeMesh m2 c2.proxyNamespace
+    let sm := scopeMesh m2 c2.proxyNamespace c2.listenPort
     let cS : Ctx := { c2 with services := c2.services.filter (fun s => sm.svcs.any (fun x => x.host == s.host)) }
-    ({ d with ctx := c2, mesh := m2 }, showVHostTable true (sidecarRDS cS sm))
+    let pol := if m2.sidecarNs == c2.proxyNamespace then d.policy else .allowAny
+    let full := sidecarRDSFull cS sm pol d.aliasHosts
+    if d.stream == "certs-rds" then
+      -- statistics only (not compared with the implementation): the hypotheses of sidecar_rds_correct on this build,
+      -- and - when they include certVSHosts - whether the theorem's model produces the same table as the full one
+      let cert := rdsCert cS sm && certVSHosts cS sm && certRegistry cS sm
+      let same := showVHostTable true full == showVHostTable true (sidecarRDS cS sm)
+      ({ d with ctx := c2, mesh := m2 },
+        "cert=" ++ boolTok cert ++ " noDrop=" ++ boolTok (certNoDrop cS sm) ++ " vsHosts=" ++ boolTok (certVSHosts cS sm)
+          ++ " models=" ++ (if cert && pol == .allowAny && d.aliasHosts.isEmpty then boolTok same else "-"))
+    else ({ d with ctx := c2, mesh := m2 }, showVHostTable true full)
   | "rreq" :: f =>
     match decReq f with
     | none => (d, "bad-op")
     | some (req, re) =>
       if !d.mesh.built then (d, "no-rds") else
-      -- the composed model of the route configuration under the Lean Envoy semantics, checked against the SPEC
-      let sm := scopeMesh d.mesh d.ctx.proxyNamespace      -- what the Sidecar resource (if any) lets this proxy see
-      -- the route compiler only sees the egress listener's services: in scope (and, inside sidecarRDS, on the port)
+      let sm := scopeMesh d.mesh d.ctx.proxyNamespace d.ctx.listenPort   -- what the Sidecar resource (if any) lets this proxy see
+      -- the route compiler only sees the egress listener's services: in scope (and, inside the model, on the port)
       let cS : Ctx := { d.ctx with services := d.ctx.services.filter (fun s => sm.svcs.any (fun x => x.host == s.host)) }
-      let mo := evalRouteConfig re true (sidecarRDS cS sm) req
+      let pol := if d.mesh.sidecarNs == d.ctx.proxyNamespace then d.policy else .allowAny
+      if d.stream == "certs-rds" then (d, "side=" ++ boolTok (meshSide re cS sm req)) else
+      -- the full model of the route configuration under the Lean Envoy semantics, checked against the SPEC
+      let mo := evalRouteConfig re true (sidecarRDSFull cS sm pol d.aliasHosts) req
       -- F-C12-4 class: the spec read against that restricted registry explains the model's (= the code's) answer
       let cR : Ctx := { cS with services := restrictRegistry cS.listenPort cS.services }
-      let f4 := meshSpecC re cR sm req == some mo
+      let f4 := meshSpecF re cR sm pol d.aliasHosts req == some mo
       -- the SPEC is silent (`none`) for contested names
-      match meshSpecC re d.ctx sm req with
+      match meshSpecF re d.ctx sm pol d.aliasHosts req with
       | none => (d, showDecision mo)
       | some sp =>
-        -- a deviation of the known class F-C12-6 (certWild fails) is left to the oracle, which classifies it
-        (d, showDecision mo ++ (if sp == mo || f4 || !certWild d.ctx sm then "" else " !spec:" ++ showDecision sp))
+        -- deviations of the known classes F-C12-4 / F-C12-6 are left to the oracle, which classifies them
+        (d, showDecision mo ++ (if sp == mo || f4 || !certWild cS sm then "" else " !spec:" ++ showDecision sp))
   | ["acc"] => ({ d with vh := { d.vh with acc := d.vh.acc ++ compile d.ctx d.vs } }, "ok")
   | ["sortv"] => (d, showRoutes (sortVHostRoutes d.vh.acc))
   | "sreq" :: f =>
